@@ -76,6 +76,14 @@ TEMPLATES = {
     "payload_field_of_sealed": "pub fn probe(t: SealedToken<V, Public, M>) {{ let _ = t.payload; }}",
     "claims_of_unsealed": "pub fn probe(t: UnsealedToken<V, Local, M>) {{ let _ = t.claims; }}",
     "footer_of_unsealed": "pub fn probe(t: UnsealedToken<V, Public, M, Vec<u8>>) {{ let _ = t.footer; }}",
+    "verify_aad_on_encrypted": "pub fn probe(t: SealedToken<V, Local, M>, k: &Key<V, Local>) {{ let _ = t.verify_with_aad(k, &[], " + NV + "); }}",
+    "decrypt_aad_on_signed": "pub fn probe(t: SealedToken<V, Public, M>, k: &Key<V, Public>) {{ let _ = t.decrypt_with_aad(k, &[], " + NV + "); }}",
+    "sign_aad_on_unencrypted": "pub fn probe(t: UnsealedToken<V, Local, M>, k: &Key<V, Local>) {{ let _ = t.sign_with_aad(k, &[]); }}",
+    "encrypt_aad_on_unsigned": "pub fn probe(t: UnsealedToken<V, Public, M>, k: &Key<V, Secret>) {{ let _ = t.encrypt_with_aad(k, &[]); }}",
+    "decrypt_aad_on_encrypted": "pub fn probe(t: SealedToken<V, Local, M>, k: &Key<V, Local>) {{ let _ = t.decrypt_with_aad(k, &[], " + NV + "); }}",
+    "verify_aad_on_signed": "pub fn probe(t: SealedToken<V, Public, M>, k: &Key<V, Public>) {{ let _ = t.verify_with_aad(k, &[], " + NV + "); }}",
+    "encrypt_aad_on_unencrypted": "pub fn probe(t: UnsealedToken<V, Local, M>, k: &Key<V, Local>) {{ let _ = t.encrypt_with_aad(k, &[]); }}",
+    "sign_aad_on_unsigned": "pub fn probe(t: UnsealedToken<V, Public, M>, k: &Key<V, Secret>) {{ let _ = t.sign_with_aad(k, &[]); }}",
     "debug_sealed": "pub fn probe(t: &SealedToken<V, Local, M, Vec<u8>>) -> String {{ format!(\"{{:?}}\", t) }}",
     "alias_signed": "pub fn probe(t: BE::SignedToken<M>) -> SealedToken<V, Public, M> {{ t }}",
     "alias_encrypted": "pub fn probe(t: BE::EncryptedToken<M>) -> SealedToken<V, Local, M> {{ t }}",
